@@ -7,6 +7,11 @@ Labels (never added together):
                  word / group width) over the full input domain
   B  bounded     Kani/CBMC Hoare obligation {Inv && pre} f {Inv && post} from EVERY abstract state
                  of a table with N buckets, N in a stated finite set (bounded in table size only)
+  R  runtime     the same contract (same plain-Rust pre/post predicates, same real function) evaluated
+                 natively on sampled abstract states (4..64 buckets + the unallocated singleton, both
+                 group widths); stand-in for functions whose symbolic execution does not terminate in
+                 CBMC (rehash_in_place, resize_inner and everything that reaches them) and the only
+                 engine that really unwinds (C04).  Sampling, never counted as proved.
 """
 
 FEATURES = 'serde,rayon,rustc-internal-api'
@@ -77,6 +82,102 @@ def KB(base, n, props, fns, desc, cfgs, tier, timeout=1500, mem=4, **kw):
       timeout=timeout, mem=mem, bound='buckets == %d' % n, **kw)
 
 
+# ---- raw table core: bounded-inductive CBMC obligations ----
+def raw_b(base, props, fns, desc, sse2=(4, 8), generic=(8, 16), thorough_sse2=(16,), timeout=1500):
+    for n in sorted(set(sse2) | set(generic) | set(thorough_sse2)):
+        cfgs = []
+        if n in sse2 or n in thorough_sse2:
+            cfgs.append('sse2')
+        if n in generic:
+            cfgs.append('generic')
+        tier = 'quick' if (n in sse2 or n in generic) else 'thorough'
+        K('%s_n%d' % (base, n), 'B', props, fns, desc + ' [every abstract state with %d buckets]' % n, cfgs=cfgs, tier=tier,
+          timeout=timeout, mem=4, bound='buckets == %d' % n,
+          expect_unsat_covers=(['erase must leave a tombstone'] if False else []))
+
+
+raw_b('h_find', ['C01', 'C06', 'C02'], ['RawTable::find', 'RawTableInner::find_inner'],
+      'find: sound and complete w.r.t. the abstract state (every stored element equal to the probe is found, nothing else), table untouched')
+K('h_find_unlawful_n8', 'B', ['C05', 'C02'], ['RawTableInner::find_inner'],
+  'find_inner with arbitrary eq answers and unrelated hash: terminates, only full in-range buckets offered/returned [every wf state with 8 buckets]',
+  tier='quick', timeout=1500, mem=4, bound='buckets == 8')
+raw_b('h_find_insert_slot', ['C01', 'C06', 'C13', 'C02'], ['RawTableInner::find_insert_slot', 'RawTableInner::fix_insert_slot', 'RawTableInner::find_insert_slot_in_group'],
+      'find_insert_slot: in range, EMPTY or DELETED, no group with an EMPTY byte probed before the slot group')
+raw_b('h_find_or_insert_slot', ['C01', 'C06', 'C14'], ['RawTableInner::find_or_find_insert_slot_inner'],
+      'find_or_find_insert_slot_inner: Ok exactly for stored elements, Err slot satisfies the insert-slot contract')
+raw_b('h_insert_in_slot', ['C01', 'C06', 'C13'], ['RawTable::insert_in_slot', 'RawTableInner::record_item_insert_at', 'RawTableInner::set_ctrl'],
+      'insert_in_slot at any admissible slot: wf kept (accounting, mirror bytes), only that bucket changes, everything stays reachable')
+raw_b('h_remove', ['C01', 'C06', 'C13', 'C10', 'C03'], ['RawTable::remove', 'RawTableInner::erase', 'RawTableInner::set_ctrl'],
+      'remove/erase: returns the element and its slot, DELETED iff a whole window of non-EMPTY buckets contains the slot else EMPTY with growth_left+1, frame, reachability kept')
+raw_b('h_iter', ['C09', 'C02'], ['RawTableInner::iter', 'RawIterRange::new', 'RawIterRange::next_impl', 'RawIter::next', 'RawIter::size_hint'],
+      'RawIter: exactly the full buckets in ascending order, exact size_hint at every step, None after exhaustion')
+
+# ---- engine R: native evaluation of contracts on sampled states ----
+NATIVE = {}
+R_SIZES = (4, 8, 16, 32, 64)
+
+
+def R(base, props, fns, desc, sizes=R_SIZES, names=None, quick_iters=30000, thorough_iters=600000):
+    for nm in (names or ['%s_n%d' % (base, n) for n in sizes]):
+        big = nm.endswith('n64') or '_n64_' in nm
+        NATIVE[nm] = dict(name=nm, label='R', props=list(props), fns=list(fns), desc=desc, cfgs=['sse2', 'generic'],
+                          quick_iters=quick_iters // (3 if big else 1), thorough_iters=thorough_iters // (3 if big else 1))
+
+
+R('r_find', ['C01', 'C06', 'C18'], ['RawTable::find'], 'find sound+complete (as h_find) on sampled Inv states up to 64 buckets')
+R('r_find_unlawful', ['C05'], ['RawTableInner::find_inner'], 'find_inner under arbitrary eq answers')
+R('r_find_insert_slot', ['C01', 'C06', 'C13'], ['RawTableInner::find_insert_slot'], 'insert-slot contract on sampled states (multi-group SSE2 included)')
+R('r_find_or_insert_slot', ['C01', 'C06', 'C14'], ['RawTableInner::find_or_find_insert_slot_inner'], 'find_or_find_insert_slot contract on sampled states')
+R('r_insert_in_slot', ['C01', 'C06', 'C13'], ['RawTable::insert_in_slot'], 'insert_in_slot contract on sampled states')
+R('r_remove', ['C01', 'C06', 'C13', 'C10'], ['RawTable::remove', 'RawTableInner::erase'], 'remove/erase contract (exact DELETED/EMPTY rule) on sampled states')
+R('r_insert', ['C01', 'C06', 'C08', 'C13'], ['RawTable::insert'], 'RawTable::insert: one more copy, nothing lost, reachable, no reallocation while room or a tombstone is usable',
+  sizes=(4, 8, 16, 32))
+R('r_resize', ['C01', 'C03', 'C08', 'C13', 'C05'], ['RawTable::resize', 'RawTableInner::resize_inner', 'RawTableInner::prepare_resize'],
+  'resize_inner: same multiset, no tombstones, everything reachable in the new table', sizes=(4, 8, 16, 32))
+R('r_rehash_in_place', ['C01', 'C13', 'C05', 'C03'], ['RawTableInner::rehash_in_place', 'RawTableInner::prepare_rehash_in_place', 'RawTableInner::is_in_same_group'],
+  'rehash_in_place: same multiset, same allocation, no tombstones, everything reachable')
+R('r_iter', ['C09'], ['RawIter::next', 'RawIter::size_hint'], 'RawIter contract on sampled states')
+R('r_map_lookup', ['C01', 'C18'], ['HashMap::get', 'HashMap::get_mut', 'HashMap::contains_key', 'HashMap::get_key_value', 'HashMap::get_key_value_mut', 'HashMap::index'],
+  'HashMap lookups equal the association-list reference, also through an equivalent borrowed key; map unchanged')
+R('r_map_update', ['C01', 'C08', 'C18'], ['HashMap::insert', 'HashMap::try_insert', 'HashMap::remove', 'HashMap::remove_entry', 'HashMap::insert_unique_unchecked'],
+  'HashMap insert/try_insert/remove/remove_entry: return values and contents equal the reference; present-key insert keeps the stored key; no reallocation within capacity')
+R('r_map_entry', ['C14', 'C01'], ['HashMap::entry', 'HashMap::entry_ref', 'Entry::*', 'OccupiedEntry::*', 'VacantEntry::*', 'EntryRef::*'],
+  'entry / entry_ref: Occupied iff present; every method chain equals the equivalent get/insert/remove sequence; unused vacant entry changes nothing; full-load states included')
+R('r_map_bulk', ['C01', 'C08', 'C10'], ['HashMap::clear', 'HashMap::reserve', 'HashMap::try_reserve', 'HashMap::shrink_to', 'HashMap::shrink_to_fit', 'HashMap::retain', 'HashMap::extend'],
+  'clear/reserve/try_reserve/shrink_to/shrink_to_fit/retain/extend: contents equal the reference, capacity contract clauses')
+R('r_map_construct', ['C01', 'C08'], ['HashMap::from_iter', 'HashMap::with_capacity_and_hasher', 'HashMap::default'],
+  'from_iter keeps the last value per key; with_capacity(n).capacity() >= n; default/with_capacity(0) allocate nothing', names=['r_map_construct_n8', 'r_map_construct_n32'])
+R('r_set_algebra', ['C07'], ['HashSet::union', 'HashSet::intersection', 'HashSet::difference', 'HashSet::symmetric_difference', 'HashSet::is_subset', 'HashSet::is_superset',
+                             'HashSet::is_disjoint', 'HashSet::eq', 'BitOr', 'BitAnd', 'BitXor', 'Sub', 'BitOrAssign', 'BitAndAssign', 'BitXorAssign', 'SubAssign'],
+  'set algebra and predicates equal the mathematical result for (arbitrary Inv state, history-built set) pairs; size_hint bounds at every step')
+R('r_set_elem', ['C07', 'C14'], ['HashSet::insert', 'HashSet::replace', 'HashSet::take', 'HashSet::get', 'HashSet::get_or_insert', 'HashSet::get_or_insert_with', 'HashSet::remove', 'HashSet::entry'],
+  'set element operations: replace stores new / returns old, get_or_insert keeps old, get_or_insert_with refuses non-equivalent values')
+R('r_table_ops', ['C06', 'C08'], ['HashTable::find', 'HashTable::find_mut', 'HashTable::find_entry', 'HashTable::entry', 'HashTable::insert_unique', 'HashTable::retain',
+                                 'HashTable::clear', 'HashTable::reserve', 'HashTable::shrink_to', 'HashTable::iter_hash', 'HashTable::iter_hash_mut', 'table::OccupiedEntry::remove', 'table::VacantEntry::insert'],
+  'HashTable as a multiset keyed by caller hashes incl. remove + re-insertion through the returned VacantEntry and iter_hash')
+R('r_get_many_mut', ['C15'], ['HashMap::get_many_mut', 'HashMap::get_many_key_value_mut', 'RawTable::get_many_mut'],
+  'get_many_mut / get_many_key_value_mut for N = 0..4: request order, own entry per present key, None for absent, panic instead of aliasing, writes land in the requested entries')
+R('r_table_get_many_mut', ['C15', 'C05'], ['HashTable::get_many_mut'], 'HashTable::get_many_mut with lawful and sloppy closures: distinct entries or panic')
+R('r_map_iter', ['C09'], ['HashMap::iter', 'HashMap::iter_mut', 'HashMap::keys', 'HashMap::values', 'HashMap::values_mut', 'HashMap::into_iter', 'HashMap::into_keys', 'HashMap::into_values', 'HashMap::drain'],
+  'every HashMap iterator: each element once, exact size_hint/len at every step, fold == repeated next, clones continue independently, None after exhaustion, Default empty')
+R('r_set_table_iter', ['C09'], ['HashSet::iter', 'HashSet::into_iter', 'HashSet::drain', 'HashTable::iter', 'HashTable::iter_mut', 'HashTable::into_iter', 'HashTable::drain'],
+  'HashSet / HashTable iterators (same contract)')
+R('r_drain_extract', ['C10', 'C02'], ['HashMap::drain', 'HashMap::extract_if', 'HashTable::extract_if', 'RawDrain::drop'],
+  'drain consumed to any cut / leaked: empty valid map, same allocation; extract_if dropped at any point: yielded == visited && true, rest stays')
+R('r_life', ['C03', 'C08'], ['RawTable::drop', 'RawIntoIter::drop', 'RawDrain::drop', 'RawTable::clear', 'RawTable::shrink_to', 'RawTable::clone_from', 'RawTableInner::drop_inner_table', 'RawTable::into_allocation'],
+  'every exit path (remove, overwrite, clear, retain, extract_if, drain, into_iter/keys/values at any cut, shrink, clone_from, drop): each element dropped or moved out exactly once, each block freed once with its layout; allocation_size() == bytes held')
+R('r_no_alloc', ['C03', 'C08'], ['RawTable::new_in', 'RawTableInner::NEW'], 'new/default/with_capacity(0) never call the allocator; capacity()-len() inserts perform no allocation')
+R('r_try_reserve', ['C12'], ['RawTable::try_reserve', 'RawTableInner::reserve_rehash_inner', 'RawTableInner::fallible_with_capacity', 'Fallibility::*'],
+  'try_reserve over boundary amounts x allocator refusing the j-th request: Ok with room, or CapacityOverflow, or AllocError with the refused layout; never a panic or invalid layout; on error nothing changed/leaked/dropped')
+R('r_clone_eq', ['C11', 'C03'], ['RawTable::clone', 'RawTable::clone_from', 'RawTable::clone_from_impl', 'HashMap::eq'],
+  'clone / clone_from into targets of every relative size: equal, independently owned, source untouched; == iff same contents whatever history/capacity/hasher',
+  names=['r_clone_eq_n4_m8', 'r_clone_eq_n8_m4', 'r_clone_eq_n8_m8', 'r_clone_eq_n16_m32', 'r_clone_eq_n32_m8', 'r_clone_eq_n32_m32', 'r_clone_eq_n64_m16'])
+R('r_panic', ['C04', 'C02'], ['ScopeGuard::drop', 'RawTableInner::rehash_in_place', 'RawTableInner::resize_inner', 'RawTable::clone_from', 'RawTable::clone_from_impl', 'RawTable::clear', 'RawTable::replace_bucket_with', 'RawExtractIf::next'],
+  'the k-th Hash/Eq/Clone/Drop/predicate/entry-closure/iterator callback panics (real unwinding): valid table, len == yielded == found, no double drop, leaks only from destructor panics, hasher panic while growing leaves contents unchanged')
+R('r_panic_nodrop', ['C04', 'C02'], ['RawTableInner::rehash_in_place'], 'hasher panic during reserve/insert/shrink for element types without drop glue: items == #FULL afterwards')
+R('r_unlawful', ['C05'], ['HashMap::*', 'HashSet::*'], 'random / constant / inconsistent Hash and Eq answers over operation sequences: wf after every step, termination, exactly-once drops, len == yielded == drained, get_many_mut never aliases')
+
+
 VERUS = {
     # unit -> dict(props, widths, tier, desc)
     'arith': dict(props=['C17', 'C08', 'C12', 'C13'], tier='quick',
@@ -103,3 +204,7 @@ def kani_for(prop, tier):
 
 def verus_for(prop, tier):
     return [u for u, d in VERUS.items() if prop in d['props'] and (tier == 'thorough' or d['tier'] == 'quick')]
+
+
+def native_for(prop, tier):
+    return [o for o in NATIVE.values() if prop in o['props']]
